@@ -1,0 +1,23 @@
+//go:build verif
+// +build verif
+
+package circuit
+
+import "time"
+
+// VerifSnapshot is the breaker's internal state as the verification harness reads it
+// (build tag verif only). It takes the mutex, so it observes a state between critical sections.
+type VerifSnapshot struct {
+	State          State
+	Counts         Counts
+	Generation     int
+	BackoffExpires time.Time
+}
+
+// VerifSnapshot returns a copy of the breaker's state without evaluating the lazy
+// open -> half-open transition.
+func (b *Breaker) VerifSnapshot() VerifSnapshot {
+	b.mutex.Lock()
+	defer b.mutex.Unlock()
+	return VerifSnapshot{State: b.state, Counts: b.counts, Generation: b.generation, BackoffExpires: b.backoffExpires}
+}
